@@ -178,6 +178,12 @@ def concrete(fn, params, args):
             "expected": "names that are values of CURTSIES_NAMES", "call": call}
 
 
+def extra_concrete_cases(tier="quick"):
+    """both tables are finite data: every entry driven in all three naming modes and every encoding (same cuts, bytes naming
+    returns the bytes, table names)"""
+    return [c for c in c03.extra_concrete_cases(tier) if c[0] == "tablecase"]
+
+
 def region_of(fn, params, args):
     if fn == "decode":
         return c03.region_of(fn, params, args)
